@@ -10,9 +10,9 @@ CONSTANTS
   MaxDeletes = 1
   MaxReopens = 0
   MaxPosOps = 0
-  Active = {"r1", "w"}
+  Active = {"r1"}
   Bin = TRUE
   Acts = {"write", "readblock", "delete"}
-  Defects = {"overwrite", "refresh_skip"}
+  Defects = {"overwrite", "refresh_skip", "frac_ts"}
 VIEW view
 ACTION_CONSTRAINT Emit
